@@ -20,7 +20,7 @@ BUDGET = {'quick': 420, 'thorough': 3000}
 BOUNDS = {'quick': dict(n=2), 'thorough': dict(n=3)}
 ASSUMPTIONS = [
     'entry names: a typed prefix `f` followed by n fully symbolic characters (every scalar except `/` and NUL), so every special character appears in the completed part; the typed prefix itself is plain (a user types special prefix characters already escaped - that is escaped_word_start\'s domain, C05)',
-    'three contexts (unquoted, open single quote, open double quote) x {file, directory} x {command `prog`, `cd`} x {current directory, sub/ prefix}',
+    'three contexts (unquoted, open single quote, open double quote) x {file, directory} x {command `prog`, `cd`} x {current directory, `sub/`, a directory part with a blank typed as `a\\ b/` (unquoted) or `a b/` (quoted), a directory part with `$` inside single quotes}',
     'lineread is modelled by its contract (replace [word_start, cursor) by the completion, append blank or `/`); for a directory completed inside quotes the user closes the quote before Enter; the pty, key handling and display are outside',
     'read_dir / is_dir are stubs: the entry under test plus one entry that does not start with the prefix and one directory',
     'reading back: from_line with env stub (no variables set), glob stub: pattern-respecting adversarial directory (a pattern containing `*` also matches the name with the stars removed)',
@@ -31,9 +31,11 @@ def instances(tier, seed):
     for ctx in ('unq', 'sq', 'dq'):
         for kind in ('file', 'dir'):
             for cmd in ('prog', 'cd'):
-                for sub in (False, True):
+                for sub in ('', 'sub', 'a b', 'd$x'):
                     if cmd == 'cd' and kind == 'file' and sub: continue
-                    out.append(dict(name='%s/%s/%s%s' % (ctx, kind, cmd, '/sub' if sub else ''), ctx=ctx, kind=kind, cmd=cmd, sub=sub, _split=5))
+                    if sub in ('a b', 'd$x') and cmd == 'cd': continue
+                    if sub == 'd$x' and ctx != 'sq': continue          # `$` cannot be spelled unquoted / in double quotes (known findings)
+                    out.append(dict(name='%s/%s/%s%s' % (ctx, kind, cmd, '/' + sub.replace(' ', '_') if sub else ''), ctx=ctx, kind=kind, cmd=cmd, sub=sub, _split=5))
     return out
 
 def install(I, name, kind, sub):
@@ -51,8 +53,8 @@ def install(I, name, kind, sub):
         d = I.deref(a[0]); d = tuple(d.data) if isinstance(d, Opaque) else I.str_of(d)
         ds = ''.join(chr(x) for x in d)
         I.h_lookups.append(ds)
-        if ds not in (('sub/',) if sub else ('.',)): return ERR(Opaque('io::Error'))
-        base = lit('sub/') if sub else ()
+        if ds not in ((sub + '/',) if sub else ('.',)): return ERR(Opaque('io::Error'))
+        base = lit(sub + '/') if sub else ()
         return OK(ListIter([OK(Opaque('DirEntry', dict(name=n_, is_dir=isd, path=tuple(base) + tuple(n_)))) for n_, isd in entries]))
     I.stubs['read_dir'] = read_dir; I.stubs['fs::read_dir'] = read_dir; I.stubs['std::fs::read_dir'] = read_dir
     I.stubs['DirEntry::path'] = lambda I_, a, c: Opaque('PathBuf', I.deref(a[0]).data)
@@ -74,7 +76,9 @@ def body(inst, b):
         I.h_name = tuple(name); I.h_lookups = []
         install(I, name, inst['kind'], inst['sub'])
         q = {'unq': '', 'sq': "'", 'dq': '"'}[inst['ctx']]
-        typed = list(lit(inst['cmd'] + ' ' + q + ('sub/' if inst['sub'] else '') + 'f'))
+        sub = inst['sub']
+        typed_dir = (sub.replace(' ', '\\ ') if inst['ctx'] == 'unq' else sub) + '/' if sub else ''
+        typed = list(lit(inst['cmd'] + ' ' + q + typed_dir + 'f'))
         I.h_typed = tuple(typed)
         start = I.call_fn('completers::escaped_word_start', [tuple(typed)])
         start = I.concretize(start)
@@ -96,7 +100,7 @@ def body(inst, b):
         expect(I, r.tag == 'Ok', 'completed-line-rejected', dict(final=tuple(final)))
         plan = hlib.plan_of(I, r.f[0])
         I.h_plan = plan
-        want = tuple(lit('sub/') if inst['sub'] else ()) + tuple(name) + (tuple(lit('/')) if inst['kind'] == 'dir' else ())
+        want = tuple(lit(sub + '/') if sub else ()) + tuple(name) + (tuple(lit('/')) if inst['kind'] == 'dir' else ())
         ok = len(plan['commands']) == 1 and not plan['background'] and not plan['commands'][0]['redirects_to'] and plan['commands'][0]['redirect_from'] is None
         expect(I, ok, 'completed-name-read-as-syntax', dict(final=tuple(final), plan=plan))
         argv = [t[1] for t in plan['commands'][0]['tokens']]
@@ -112,7 +116,7 @@ def native_roundtrip(v):
     if '/' in name or '\x00' in name or name in ('.', '..'): return dict(skipped='not a file name')
     d = tempfile.mkdtemp(prefix='cicada-verif-c20-')
     try:
-        base = os.path.join(d, 'sub') if v['sub'] else d
+        base = os.path.join(d, v['sub']) if v['sub'] else d
         os.makedirs(base, exist_ok=True)
         try:
             extra = [(name.replace('*', ''), False)] if '*' in name and name.replace('*', '') not in ('', name) else []
@@ -139,7 +143,7 @@ def native_roundtrip(v):
             final = bs + comps[0] + (' ' if v['kind'] == 'file' else '/' + q)
             r = nat.call('from_line', final)
             out.update(final=final, read_back=r)
-            want = ('sub/' if v['sub'] else '') + name + ('/' if v['kind'] == 'dir' else '')
+            want = (v['sub'] + '/' if v['sub'] else '') + name + ('/' if v['kind'] == 'dir' else '')
             ok = isinstance(r, dict) and 'Ok' in r and len(r['Ok'][0]) == 1 and not r['Ok'][2] and not r['Ok'][0][0][1] and r['Ok'][0][0][2] is None \
                 and [t[1] for t in r['Ok'][0][0][0]] == [v['cmd'], want]
             out['expected_argv'] = [v['cmd'], want]; out['reproduced'] = not ok
